@@ -169,6 +169,13 @@ CLAIMED['C06'] = dict(
          'From these, eager == lazy == the documented function of the consumed prefix follows for all byte-oriented and UTF-8 rules. Known finding D08 (cr_crlf) is reported by (3).',
     ref='5/C06')
 
+CLAIMED['C19'] = dict(
+    technique='abstract interpretation of at / begin_of_line / end_of_line / line_at over exact sets (availability, byte values, symbolic initial counters) against an independent line splitter; until/at interpreted by their documented meaning, eolf and the end-of-line rules by their code',
+    text='For both tracking modes and the five end-of-line policies: at( p ) = begin + offset, begin_of_line( p ) = start of the line, end_of_line( p ) = first line ending of the policy at or after the position or the end, line_at( p ) = exactly that range, '
+         'no byte beyond the end read, the second input spans [ at( p ), end ). Positions are those the input reports (C06). Exact for offsets 0..3, line starts 0..offset and data windows of 9 bytes (all byte values); the pointer arithmetic of at and begin_of_line is '
+         'additionally evaluated with symbolic non-default initial byte and column, which yields known finding D07 (pointers outside the data).',
+    ref='5/C19')
+
 NOT_YET = 'check not built yet in this round (see DESIGN.md section 10 for the order of construction); no claim is made'
 
 NA_REASONS = {}
